@@ -773,6 +773,9 @@ func (s *c38Sys) Apply(op int) error {
 	} else if err != nil {
 		return fmt.Errorf("%s: unexpected error %v", s.names[op], err)
 	}
+	// Note: the prefix replays of Explore run the complete checks again on purpose: the
+	// reads of the checks warm the in-memory caches (tx lookup, receipts, blocks), and a
+	// stale cache entry is only observable when the prefix performed the same reads.
 	if e := s.checkEvents(o, exp, oldCanon); e != nil {
 		return fmt.Errorf("%s: %v", s.names[op], e)
 	}
@@ -1245,7 +1248,7 @@ type c38Exploration struct {
 	height int
 	withE  bool
 	depth  int
-	only   []string // when set: restrict the alphabet to operations on these blocks (plus sethead/restart/batch:A)
+	only   []string // when set: restrict the alphabet to operations on these blocks and these sethead targets (plus restart, batch:A)
 }
 
 func TestVerif_C38(t *testing.T) {
@@ -1254,11 +1257,11 @@ func TestVerif_C38(t *testing.T) {
 		if r.Quick() {
 			runs = []c38Exploration{
 				{name: "path", mode: c38ModePath, height: 3, depth: 4},
-				{name: "hash-full", mode: c38ModeHashFull, height: 3, depth: 4},
+				{name: "hash-full", mode: c38ModeHashFull, height: 3, depth: 3},
 				{name: "hash-archive", mode: c38ModeHashArchive, height: 3, depth: 3},
 				// head header ahead of the head block (rewind to a block whose state is gone), then
 				// re-import / competing import: needs height 4 because Stop persists HEAD and HEAD-1
-				{name: "hash-full-ahead", mode: c38ModeHashFull, height: 4, withE: true, depth: 4, only: []string{"A1", "A2", "B2", "E1"}},
+				{name: "hash-full-ahead", mode: c38ModeHashFull, height: 4, withE: true, depth: 4, only: []string{"A1", "E1", "sethead:1", "sethead:2"}},
 			}
 		} else {
 			runs = []c38Exploration{
@@ -1287,11 +1290,12 @@ func TestVerif_C38(t *testing.T) {
 				var fo []c38Op
 				var fn []string
 				for i, o := range ops {
-					keep := o.kind == "sethead" || o.kind == "restart" || (o.kind == "batch" && o.branch == "A")
-					if o.kind == "ins" || o.kind == "pay" || o.kind == "canon" {
-						for _, b := range x.only {
+					keep := o.kind == "restart" || (o.kind == "batch" && o.branch == "A")
+					for _, b := range x.only {
+						if o.kind == "ins" || o.kind == "pay" || o.kind == "canon" {
 							keep = keep || f.name(o.arg) == b
 						}
+						keep = keep || names[i] == b
 					}
 					if keep {
 						fo, fn = append(fo, o), append(fn, names[i])
